@@ -43,7 +43,9 @@ Theorem c14_steane : forall e, length e = 14 -> bsf_wt e <= 1 ->
   exists r, naive steane_stabs 7 (syndrome_of steane_stabs e) = Some r /\ in_spanP 14 steane_stabs (xorv r e).
 Proof. exact steane_naive_corrects. Qed.
 
-(* not proved (needs the lattice models of Lattice/*.v): for every planar / toric size, every error with
+(* The generic statement below (an arbitrary decode function) is kept visible; its two intended instances ARE proved
+   for all sizes further down: c14_planar_mwpm_corrects_all / c14_planar_mwpm_brute_corrects and
+   c14_toric_mwpm_corrects_all / c14_toric_mwpm_brute_corrects.  Original wording: for every planar / toric size, every error with
    X- and Z-part of weight <= (d-1)/2 and every minimum-weight perfect matching of the decoder's graph,
    recovery xor error is in the stabilizer span. Checked on the implementation by the harness with in_span. *)
 Definition c14_mwpm_statement : Prop :=
